@@ -170,6 +170,24 @@ def explore_arms(body, max_arms=16):
                     nsub = dict(sub)
                     nsub[s[0]] = s[1]
                     work.append(nsub)
+                elif s is None and cond.op in ("nonzero", "==", "!=", "isclose"):
+                    # a compound quantity (m = w^2 a^2 b / GM ...): it vanishes identically when one of its symbols does -- each such symbol is a degenerate arm
+                    d = cond.lhs if cond.op == "nonzero" else (cond.lhs - cond.rhs)
+                    try:
+                        names = sorted({P.atom(a_).name for a_ in d.atoms() if P.atom(a_).kind == "sym"})
+                    except Exception:
+                        names = []
+                    for nm in names:
+                        if nm in sub or nm == "pi":
+                            continue
+                        try:
+                            z = d.subs({nm: P.ZERO})
+                        except Exception:
+                            continue
+                        if getattr(z, "is_zero", lambda: False)():
+                            nsub = dict(sub)
+                            nsub[nm] = 0
+                            work.append(nsub)
     return results
 
 
